@@ -1,31 +1,34 @@
-(* C09 — the UNREPAIRED tree (fx = false, /repo at 8b83864 without build/fixes/C09_clamp.diff):
-   the same model with the repair switched off, and the refutation, by a concrete witness each,
+(* C09 — the UNREPAIRED trees:
+     part A  fx = fy = false: /repo at 8b83864, before build/fixes/C09_clamp.diff (now applied as
+             95d346a, 4ffdf03, 82b2250);
+     part B  fx = true, fy = false: /repo at 25f0df4, before build/fixes/C09_reclamp_on_schema_update.diff.
+   The same model with the repairs switched off, and the refutation, by a concrete witness each,
    of the clauses of C09 that are false of it.  Every witness is in the corpus of the check
    (lib/props/c09.py) and was replayed on the real code through harness/c09
    (VERIF_C09_MODEL=unrepaired compares this model with the unrepaired code). *)
 From KG Require Import Prelude C09_Model C09_Spec C09_Proofs.
 Open Scope Z_scope.
 
-Definition ustep := step false.
-Definition urun := run false.
+Definition ustep := step false false.
+Definition urun (st : static) (str0 : strategy) := run false false st (init (cfg st) str0).
 Definition uobserve := observe false.
-Definition utrace := trace false.
+Definition utrace (st : static) (str0 : strategy) := trace false false st (init (cfg st) str0).
 
 Definition mi_5_20 (s : strategy) : static * strategy :=
   ({| cfg := {| ck := KMI; l1 := 5; l2 := 0; g1 := 20; g2 := 0 |}; md := MRemote; cs := CSOk |}, s).
 Definition tb_5_10_100_10 (s : strategy) : static * strategy :=
   ({| cfg := {| ck := KTB; l1 := 5; l2 := 10; g1 := 100; g2 := 10 |}; md := MRemote; cs := CSOk |}, s).
 Definition enforced (p : static * strategy) (ops : list ev) : option lim :=
-  o_lim (uobserve (fst p) (urun (fst p) (init (snd p)) ops)).
+  o_lim (uobserve (fst p) (urun (fst p) (snd p) ops)).
 Definition bound_after (p : static * strategy) (ops : list ev) : bool :=
-  bound_ok (cfg (fst p)) (uobserve (fst p) (urun (fst p) (init (snd p)) ops)).
+  bound_ok (cfg (fst p)) (uobserve (fst p) (urun (fst p) (snd p) ops)).
 Definition qmi (m : Z) : ev := EQuota {| idet := DMI m; istr := SAlloc |}.
 Definition qtb (q b : Z) : ev := EQuota {| idet := DTB q b; istr := SAlloc |}.
 
 (* the statement that is refuted: "for every valid schema and history the enforced limiter is bounded" *)
 Definition size_le_global_statement : Prop :=
   forall st str0 ops, valid_cfg (cfg st) ->
-    bound_ok (cfg st) (uobserve st (urun st (init str0) ops)) = true.
+    bound_ok (cfg st) (uobserve st (urun st str0 ops)) = true.
 
 Ltac witness p ops :=
   intros H; specialize (H (fst p) (snd p) ops);
@@ -101,11 +104,11 @@ Proof. witness (tb_5_10_100_10 SCount) [EHb true; ECfgSync; ECount (RErr 0 50) 1
 (* 9. between EnableRemoteFlowControl and the first Sync the remote wrapper has no limiter, Load returns
       it all the same and the request dereferences nil *)
 Example C09_nil_limiter_window :
-  o_sel (uobserve (fst (mi_5_20 SAlloc)) (urun (fst (mi_5_20 SAlloc)) (init SAlloc) [EHb true; EEnable])) = SelPanic.
+  o_sel (uobserve (fst (mi_5_20 SAlloc)) (urun (fst (mi_5_20 SAlloc)) SAlloc [EHb true; EEnable])) = SelPanic.
 Proof. vm_compute. reflexivity. Qed.
 Theorem C09_fallback_refuted :
   ~ (forall st str0 ops, valid_cfg (cfg st) ->
-       let s := urun st (init str0) ops in
+       let s := urun st str0 ops in
        has_inner s = false -> o_sel (uobserve st s) = SelLocal).
 Proof.
   intros H. specialize (H (fst (mi_5_20 SAlloc)) SAlloc [EHb true; EEnable]).
@@ -115,16 +118,67 @@ Qed.
 
 (* 10. answers of another type also crash the reconcile goroutine (nil dereference) *)
 Example C09_reconcile_crash :
-  crashed (urun (fst (mi_5_20 SAlloc)) (init SAlloc) [qtb 7 9; qtb 8 9]) = true                                (* GlobalTokenBucket is nil *)
-  /\ crashed (urun (fst (mi_5_20 SAlloc)) (init SAlloc) [EQuota {| idet := DNone; istr := SCount |}]) = true.   (* limitItem.TokenBucket is nil *)
+  crashed (urun (fst (mi_5_20 SAlloc)) SAlloc [qtb 7 9; qtb 8 9]) = true                                (* GlobalTokenBucket is nil *)
+  /\ crashed (urun (fst (mi_5_20 SAlloc)) SAlloc [EQuota {| idet := DNone; istr := SCount |}]) = true.   (* limitItem.TokenBucket is nil *)
 Proof. vm_compute. split; reflexivity. Qed.
 
 (* the executable specification on the unrepaired model's own trace: clauses bound and nopanic fail *)
 Theorem C09_history_refuted :
   ~ (forall st str0 ops, valid_cfg (cfg st) ->
-       case_ok st str0 (uobserve st (init str0)) (utrace st (init str0) ops) = all_true).
+       case_ok st str0 (uobserve st (init (cfg st) str0)) (utrace st str0 ops) = all_true).
 Proof.
   intros H. specialize (H (fst (mi_5_20 SAlloc)) SAlloc [EHb true; qmi (-1)]).
   assert (V : valid_cfg (cfg (fst (mi_5_20 SAlloc)))) by (unfold valid_cfg, two31; simpl; lia).
   specialize (H V). vm_compute in H. discriminate.
 Qed.
+
+(* ================= part B: with C09_clamp.diff, without the reclamp on schema update ================= *)
+(* localWrapper.Sync resizes the local limiter but leaves the quota in force alone: after the operator
+   lowers the global limit below it, the remote limiter keeps admitting the old quota until the next
+   answer of the limiter server arrives (reconcile period 2 s, longer while the server is failing);
+   a global-count wrapper that is unavailable keeps its fallback even across the next config sync. *)
+Definition nrun (st : static) (str0 : strategy) := run true false st (init (cfg st) str0).
+Definition nenforced (p : static * strategy) (ops : list ev) : option lim :=
+  o_lim (observe true (fst p) (nrun (fst p) (snd p) ops)).
+
+Definition window_statement : Prop :=
+  forall st str0 ops, valid_cfg (cfg st) -> Forall (ev_ok (ck (cfg st))) ops ->
+    let s := nrun st str0 ops in bound_ok (scfg s) (observe true st s) = true.
+
+Definition mi_2_10 (s : strategy) : static * strategy :=
+  ({| cfg := {| ck := KMI; l1 := 2; l2 := 0; g1 := 10; g2 := 0 |}; md := MRemote; cs := CSOk |}, s).
+
+(* 11. global-allocate: quota 8 of 10 in force, the global limit is lowered to 4: 8 > 4 are admitted *)
+Example C09_stale_quota_after_lowering :
+  nenforced (mi_2_10 SAlloc) [EHb true; qmi 8; ESchema 2 0 4 0] = Some (LMI 8)
+  /\ nenforced (mi_2_10 SAlloc) [EHb true; qmi 8; ESchema 2 0 4 0; qmi 8] = Some (LMI 4).   (* the next answer repairs it *)
+Proof. vm_compute. split; reflexivity. Qed.
+Theorem C09_schema_update_window_refuted : ~ window_statement.
+Proof.
+  intros H. specialize (H (fst (mi_2_10 SAlloc)) SAlloc [EHb true; qmi 8; ESchema 2 0 4 0]).
+  assert (V : valid_cfg (cfg (fst (mi_2_10 SAlloc)))) by (unfold valid_cfg, two31; simpl; lia).
+  assert (E : Forall (ev_ok KMI) [EHb true; qmi 8; ESchema 2 0 4 0])
+    by (repeat constructor; unfold valid_cfg, two31; simpl; lia).
+  specialize (H V E). vm_compute in H. discriminate.
+Qed.
+
+(* 12. global-count, server unavailable: the fallback 18 survives the lowering to 10 AND the following
+       config syncs (Resize does not touch the limiter while unavailable) — until the server recovers *)
+Example C09_unavailable_fallback_after_lowering :
+  nenforced (mi_5_20 SCount) [EHb true; ECfgSync; ECount (RErr 18 0) 1; ESchema 2 0 10 0; ECfgSync; ECfgSync] = Some (LMI 18).
+Proof. vm_compute. reflexivity. Qed.
+Theorem C09_schema_update_unavailable_refuted : ~ window_statement.
+Proof.
+  intros H. specialize (H (fst (mi_5_20 SCount)) SCount [EHb true; ECfgSync; ECount (RErr 18 0) 1; ESchema 2 0 10 0; ECfgSync; ECfgSync]).
+  assert (V : valid_cfg (cfg (fst (mi_5_20 SCount)))) by (unfold valid_cfg, two31; simpl; lia).
+  assert (E : Forall (ev_ok KMI) [EHb true; ECfgSync; ECount (RErr 18 0) 1; ESchema 2 0 10 0; ECfgSync; ECfgSync])
+    by (repeat constructor; unfold valid_cfg, two31; simpl; lia).
+  specialize (H V E). vm_compute in H. discriminate.
+Qed.
+
+(* 13. token bucket: burst 30 of 40 in force, global burst lowered to 10 *)
+Example C09_stale_burst_after_lowering :
+  o_lim (observe true {| cfg := {| ck := KTB; l1 := 1; l2 := 2; g1 := 1; g2 := 40 |}; md := MRemote; cs := CSOk |}
+           (nrun {| cfg := {| ck := KTB; l1 := 1; l2 := 2; g1 := 1; g2 := 40 |}; md := MRemote; cs := CSOk |} SAlloc
+                 [EHb true; qtb 1 30; ESchema 1 2 1 10])) = Some (LTB 1 30).
+Proof. vm_compute. reflexivity. Qed.
